@@ -74,6 +74,69 @@ pub fn diff(name: &'static [u8], args: &[A]) {
     std::mem::forget((r1, r2, f1, f2));
 }
 
+/// one arm of the command-name match of both parsers (S7 extraction under Kani; natively the whole parsers on the
+/// full frame), for every arity lo..=hi, every argument = `w` symbolic bytes (any byte values, also non-UTF-8).
+/// `f.0` / `f.1` take the complete element vector (name first).
+pub fn arm<F1, F2>(name: &'static [u8], lo: usize, hi: usize, w: usize, f: (F1, F2))
+where F1: Fn(Vec<RespValue>) -> Result<Command, String>, F2: Fn(Vec<RespValueZeroCopy>) -> Result<Command, String> {
+    macro_rules! arity { ($k:literal) => { if lo <= $k && $k <= hi { arm_one(name, $k, w, &f); } } }
+    arity!(0); arity!(1); arity!(2); arity!(3); arity!(4); arity!(5); arity!(6);
+}
+fn arm_one<F1, F2>(name: &'static [u8], k: usize, w: usize, f: &(F1, F2))
+where F1: Fn(Vec<RespValue>) -> Result<Command, String>, F2: Fn(Vec<RespValueZeroCopy>) -> Result<Command, String> {
+    let mut e1: Vec<RespValue> = Vec::with_capacity(k + 1);
+    let mut e2: Vec<RespValueZeroCopy> = Vec::with_capacity(k + 1);
+    e1.push(RespValue::BulkString(Some(name.to_vec())));
+    e2.push(RespValueZeroCopy::BulkString(Some(Bytes::from_static(name))));
+    macro_rules! argn { ($i:literal) => { if k > $i {
+        let (b0, b1, b2) = (vs::u8(), vs::u8(), vs::u8());
+        let v: Vec<u8> = match w { 0 => Vec::new(), 1 => vec![b0], 2 => vec![b0, b1], _ => vec![b0, b1, b2] };
+        e2.push(RespValueZeroCopy::BulkString(Some(Bytes::copy_from_slice(&v))));
+        e1.push(RespValue::BulkString(Some(v)));
+    } } }
+    argn!(0); argn!(1); argn!(2); argn!(3); argn!(4); argn!(5);
+    let r1 = (f.0)(e1);
+    let r2 = (f.1)(e2);
+    match (&r1, &r2) {
+        (Ok(a), Ok(b)) => { vcheck!(a == b, "parsers:same frame parsed into different commands"); }
+        (Err(a), Err(b)) => { vcheck!(a.as_bytes() == b.as_bytes(), "parsers:same frame rejected with different error texts"); }
+        (Ok(_), Err(_)) => { vcheck!(false, "parsers:frame accepted by the simulation parser only"); }
+        (Err(_), Ok(_)) => { vcheck!(false, "parsers:frame accepted by the production parser only"); }
+    }
+    std::mem::forget((r1, r2));
+}
+
+/// one arm, one concrete argument shape (literals / symbolic bytes per argument as in `diff`)
+pub fn arm_spec<F1, F2>(name: &'static [u8], args: &[A], f: (F1, F2))
+where F1: Fn(Vec<RespValue>) -> Result<Command, String>, F2: Fn(Vec<RespValueZeroCopy>) -> Result<Command, String> {
+    let mut e1: Vec<RespValue> = Vec::with_capacity(args.len() + 1);
+    let mut e2: Vec<RespValueZeroCopy> = Vec::with_capacity(args.len() + 1);
+    e1.push(RespValue::BulkString(Some(name.to_vec())));
+    e2.push(RespValueZeroCopy::BulkString(Some(Bytes::from_static(name))));
+    let mut i = 0;
+    while i < args.len() {
+        match args[i] {
+            A::Nil => { e1.push(RespValue::BulkString(None)); e2.push(RespValueZeroCopy::BulkString(None)); }
+            A::Int => { let n = vs::i64(); e1.push(RespValue::Integer(n)); e2.push(RespValueZeroCopy::Integer(n)); }
+            a => {
+                let b = arg_bytes(a).unwrap();
+                e2.push(RespValueZeroCopy::BulkString(Some(Bytes::copy_from_slice(&b))));
+                e1.push(RespValue::BulkString(Some(b)));
+            }
+        }
+        i += 1;
+    }
+    let r1 = (f.0)(e1);
+    let r2 = (f.1)(e2);
+    match (&r1, &r2) {
+        (Ok(a), Ok(b)) => { vcheck!(a == b, "parsers:same frame parsed into different commands"); }
+        (Err(a), Err(b)) => { vcheck!(a.as_bytes() == b.as_bytes(), "parsers:same frame rejected with different error texts"); }
+        (Ok(_), Err(_)) => { vcheck!(false, "parsers:frame accepted by the simulation parser only"); }
+        (Err(_), Ok(_)) => { vcheck!(false, "parsers:frame accepted by the production parser only"); }
+    }
+    std::mem::forget((r1, r2));
+}
+
 pub fn twin() {
     let e1 = vec![RespValue::BulkString(Some(b"GET".to_vec())), RespValue::BulkString(Some(vec![vs::u8()]))];
     let r1 = Command::from_resp(&RespValue::Array(Some(e1)));
